@@ -55,8 +55,7 @@ Inductive event :=
 Record result := {
   r_events : list event;       (* in program order *)
   r_errors : list err;         (* the per-file errors list *)
-  r_runner_errors : list err;  (* patchRunner.errors, appended at the end *)
-  r_abort : option err         (* Run returned early with this error *)
+  r_runner_errors : list err   (* patchRunner.errors, appended at the end *)
 }.
 
 Section Run.
@@ -69,20 +68,17 @@ Section Run.
   Variable o : opts.
 
   Definition st0 : result :=
-    {| r_events := []; r_errors := []; r_runner_errors := []; r_abort := None |}.
+    {| r_events := []; r_errors := []; r_runner_errors := [] |}.
 
   Definition emit (r : result) (evs : list event) : result :=
     {| r_events := r_events r ++ evs; r_errors := r_errors r;
-       r_runner_errors := r_runner_errors r; r_abort := r_abort r |}.
+       r_runner_errors := r_runner_errors r |}.
   Definition fail (r : result) (e : err) : result :=
     {| r_events := r_events r; r_errors := r_errors r ++ [e];
-       r_runner_errors := r_runner_errors r; r_abort := r_abort r |}.
+       r_runner_errors := r_runner_errors r |}.
   Definition rfail (r : result) (e : err) : result :=
     {| r_events := r_events r; r_errors := r_errors r;
-       r_runner_errors := r_runner_errors r ++ [e]; r_abort := r_abort r |}.
-  Definition abort (r : result) (e : err) : result :=
-    {| r_events := r_events r; r_errors := r_errors r;
-       r_runner_errors := r_runner_errors r; r_abort := Some e |}.
+       r_runner_errors := r_runner_errors r ++ [e] |}.
 
   Definition descs (i : nat) (p : path) (cs : list bytes) : list event :=
     map (EvDesc i p) cs.
@@ -100,11 +96,8 @@ Section Run.
   (* Body of the [for _, sourcePath := range files] loop. *)
   Definition step (r : result) (it : nat * target) : result :=
     let (i, t) := it in
-    match r_abort r with
-    | Some _ => r                                  (* Run has returned *)
-    | None =>
       match t_read t with
-      | inr m => abort r (ErrRead (t_abs t) m)
+      | inr m => fail r (ErrRead (t_abs t) m)
       | inl content =>
         match parses content with
         | Some m => fail r (ErrParse (t_abs t) m)
@@ -139,8 +132,7 @@ Section Run.
                 end
             end
         end
-      end
-    end.
+      end.
 
   Fixpoint number {A} (n : nat) (l : list A) : list (nat * A) :=
     match l with [] => [] | x :: l' => (n, x) :: number (S n) l' end.
@@ -150,12 +142,8 @@ Section Run.
 
   Definition run (ts : list target) : result := run_from st0 0 ts.
 
-  (* What Run returns: the early error, or multierr.Combine(errors ++ runner errors). *)
-  Definition all_errors (r : result) : list err :=
-    match r_abort r with
-    | Some e => [e]
-    | None => r_errors r ++ r_runner_errors r
-    end.
+  (* What Run returns: multierr.Combine(errors ++ runner errors). *)
+  Definition all_errors (r : result) : list err := r_errors r ++ r_runner_errors r.
 
   Definition exit_status (r : result) : N :=
     match all_errors r with [] => 0 | _ => 1 end.
